@@ -1,5 +1,5 @@
 (* Props/C09.v — property C09: virtual easy samples behave like materialised extreme scores. Statements only. *)
-From SA Require Import Model.Symmetry Model.Auc Model.Threshold Model.Harness Proofs.SymmetryFacts Proofs.MaterialiseAucFacts Proofs.MaterialiseThrFacts Proofs.MaterialisePoolFacts Proofs.MaterialisePartialAucFacts.
+From SA Require Import Model.Symmetry Model.Auc Model.Threshold Model.Harness Proofs.SymmetryFacts Proofs.MaterialiseAucFacts Proofs.MaterialiseThrFacts Proofs.MaterialisePoolFacts Proofs.MaterialisePartialAucFacts Proofs.CarrierB64.
 Open Scope Q_scope.
 
 (* Confusion matrices: for every Scores object with k, m >= 0 easy samples, every configuration and
@@ -27,6 +27,15 @@ Theorem C09_full_auc :
   auc succ pred (materialise s ppos pneg) 0 1 AFpr ATpr == auc succ pred s 0 1 AFpr ATpr.
 Proof. exact materialise_full_auc. Qed.
 Print Assumptions C09_full_auc.
+
+(* ... in particular for the executable binary64 nextafter of the model, with no hypothesis on it (Proofs/CarrierB64.v) *)
+Theorem C09_full_auc_binary64 :
+  forall (s : scores) (ppos pneg : Q),
+  pos s <> [] -> neg s <> [] -> (0 <= easy_pos s)%Z -> (0 <= easy_neg s)%Z ->
+  Forall isD64 (pos s ++ neg s) -> isD64 ppos -> isD64 pneg -> beyond s ppos pneg ->
+  auc succ64 pred64 (materialise s ppos pneg) 0 1 AFpr ATpr == auc succ64 pred64 s 0 1 AFpr ATpr.
+Proof. exact (C09_full_auc isD64 succ64 pred64 b64_carrier). Qed.
+Print Assumptions C09_full_auc_binary64.
 
 (* Thresholds, _partial (the four class-wise metrics tpr, fnr, tnr, fpr; method linear; any np.nextafter with
    x < succ x and pred x < x).  [mat_sorted s ppos pneg] is the object in which the easy samples are actual
